@@ -59,6 +59,17 @@ Theorem C06_ordering_invariants : forall c evs s, fixed c ->
 Proof. exact ordering_invariants. Qed.
 Print Assumptions C06_ordering_invariants.
 
+(* I5: the engine content found after a death is never trusted: a death marks it untrusted, applying to an untrusted
+   engine is not enabled (the apply step requires [engine = Some _]), the value served after a restart ([recover]) is a
+   function of WAL, snap files and checkpoints only, and the engine becomes usable again only through CleanData
+   (no snapshot / fresh WAL) or through the restore of the chosen snapshot's checkpoint *)
+Theorem C06_engine_never_trusted :
+  (forall c s j extra s', step c s (EvCrash j extra) = Ok s' -> engine s' = None /\ rc s' = RcStart)
+  /\ (forall c s ev s' l, engine s = None -> step c s ev = Ok s' -> engine s' = Some l ->
+       (ev = EvRcNone /\ l = []) \/ (ev = EvRcFresh /\ l = []) \/ (exists i, ev = EvRsCopied i /\ lookup i (ckpts s) = Some l)).
+Proof. split; [exact engine_untrusted_after_crash | exact engine_trusted_only_after_clean_or_restore]. Qed.
+Print Assumptions C06_engine_never_trusted.
+
 (* the restart never needs a manual repair: from the state right after a process death the steps of startRaft are
    enabled one after the other up to the running node, which holds the snapshot state and the WAL tail to replay *)
 Theorem C06_restart_succeeds : forall c s,
